@@ -25,7 +25,7 @@ C09Reason(e) ==
   ELSE IF ~LibraryIdsFresh(e.out) THEN "C09:library-id-not-fresh"
   ELSE IF e.hasInp = 1 /\ e.dupIds = 0 /\ ~Distinct(IdSeq(e.out)) THEN "C09:duplicate-ids"
   ELSE IF e.hasInp = 1 /\ e.dupIds = 0 /\ \E tok \in ToSet(TokensWithIds(e.inp)) :
-                                                  SurvivesInOneToken(e.out, tok) /\ ~AuthorIdKept(e.out, tok)
+                                                  SurvivesInOneToken(e.out, tok, e.inp) /\ ~AuthorIdKept(e.out, tok)
        THEN "C09:author-id-not-on-its-token"
   ELSE "ok"
 
